@@ -937,6 +937,18 @@ class Interp:
                 return recv if nm != "Equal" else self.apply(self.ev(n["args"][0], env), [])
             if m in ("is_eq", "is_ne", "is_lt", "is_gt", "is_le", "is_ge") and not n["args"]:
                 return {"is_eq": nm == "Equal", "is_ne": nm != "Equal", "is_lt": nm == "Less", "is_gt": nm == "Greater", "is_le": nm != "Greater", "is_ge": nm != "Less"}[m]
+        if isinstance(recv, list) and len(n["args"]) == 1 and m in ("truncate", "drain", "split_off", "resize"):
+            k_ = self.ev(n["args"][0], env)
+            if m == "truncate" and isinstance(k_, int) and not isinstance(k_, bool):
+                del recv[k_:]
+                return ()
+        if isinstance(recv, list) and len(n["args"]) == 1 and m in ("take", "skip", "step_by"):
+            k_ = self.ev(n["args"][0], env)
+            if isinstance(k_, int) and not isinstance(k_, bool):
+                return recv[:k_] if m == "take" else (recv[k_:] if m == "skip" else recv[::max(k_, 1)])
+        if isinstance(recv, list) and not n["args"] and m == "clear":
+            del recv[:]
+            return ()
         if isinstance(recv, list) and not n["args"] and m == "pop":
             return some(recv.pop()) if recv else NONE
         if isinstance(recv, list) and not n["args"] and m in ("first", "last", "first_mut", "last_mut"):
